@@ -9,7 +9,9 @@ WT="/tmp/try-seeded-$$"
 git -C /repo worktree add --detach "$WT" >/dev/null 2>&1 || { echo "cannot create worktree"; exit 2; }
 export VERIF_BUILD_TAG="try$$"
 trap 'git -C /repo worktree remove --force "$WT" >/dev/null 2>&1; rm -rf .build/*.try'$$' .build/results/*try'$$ EXIT
-( cd "$WT" && git apply "$PATCH" ) || { echo "PATCH-DOES-NOT-APPLY"; exit 2; }
+# a stored change was written against its base commit; later repairs in /repo may have moved its context
+# (3-way merge) or rewritten the very lines it changes (then it no longer exists as a change of HEAD: exit 3)
+( cd "$WT" && git apply "$PATCH" 2>/dev/null ) || ( cd "$WT" && git checkout -q -- . && git apply --3way "$PATCH" >/dev/null 2>&1 && git reset -q ) || { echo "PATCH-NO-LONGER-APPLIES (the lines it changes were rewritten by a later repair in /repo)"; exit 3; }
 ( cd "$WT" && GOFLAGS=-mod=mod GOPROXY=off go build ./... ) || { echo "PATCH-DOES-NOT-BUILD"; exit 2; }
 rc=0
 for id in ${IDS//,/ }; do
